@@ -22,6 +22,7 @@ func checkC03(p *Prog, c *Check) {
 	c03ReadLoop(p, c)
 	// the key every keyper derives is only the correct one if share i is interpolated with sender index i
 	c01Pairing(p, c, "C03-R5")
+	c03SignerRange(p, c)
 }
 
 func c03Send(p *Prog, c *Check) {
@@ -117,6 +118,9 @@ func c03Triggers(p *Prog, c *Check) {
 		}
 	}
 	c.Floor(rule, n, 6)
+	// the sorters themselves (one per flavour that sends multi-identity triggers)
+	sorterRule(p, c, rule+".sorter", "keyperimpl/gnosis.sortIdentityPreimages")
+	sorterRule(p, c, rule+".sorter", "keyperimpl/shutterservice.sortIdentityPreimages")
 }
 
 // sorterResult: ids is the result of a module function whose every successful return is a sorter's output.
@@ -386,4 +390,41 @@ func c03ReadLoop(p *Prog, c *Check) {
 			c.Result(okS, rule, "HandleMessage:keys-stored", p.siteOf(r), shortFn(hm), "returned keys message", "the aggregated keys message is broadcast without having been stored locally first", "InsertDecryptionKeysMsg(message) == nil")
 		}
 	}
+}
+
+// c03SignerRange: an honest keys message signed by any threshold subset must not be rejected for
+// its signer indices: the only range rejection is index >= number of keypers of the set (a tighter
+// bound, e.g. the threshold, refuses every subset that contains a higher-numbered keyper).
+func c03SignerRange(p *Prog, c *Check) {
+	rule := "C03-R6"
+	n := 0
+	for _, fn := range p.Funcs {
+		pkg := relPkg(fnPkgPath(fn))
+		if pkg != "keyperimpl/gnosis" && pkg != "keyperimpl/shutterservice" || isTestScaffold(fn) {
+			continue
+		}
+		fi := p.Info(fn)
+		for _, r := range returnsOf(fn) {
+			if len(r.Results) != 2 || !strings.HasSuffix(r.Results[0].Type().String(), "ValidationResult") {
+				continue
+			}
+			for _, a := range fi.FactsAt(r) {
+				b := Binds{}
+				if !ParseAtomPat("$n <= _.SignerIndices[_]").Match(a, b) {
+					continue
+				}
+				if _, isC := intConst(b["n"]); isC {
+					continue
+				}
+				if ParsePat("_.SignerIndices[_]").Match(b["n"], Binds{}) {
+					continue // ordering comparison between two indices
+				}
+				n++
+				c.Analysed(shortFn(fn))
+				ok := p.termLifted(fn, b["n"], 0, func(_ *ssa.Function, t *Term) bool { return ParsePat("len(_.Keypers)").Match(t, Binds{}) })
+				c.Result(ok, rule, fmt.Sprintf("%s:range-reject#%d", shortFn(fn), n), p.siteOf(r), shortFn(fn), "rejection for signer index out of range", "signer indices are bounded by something other than the number of keypers of the set ("+b["n"].s+"): keys signed by a subset with a higher-numbered member are refused", "bound = len(keyperSet.Keypers)")
+			}
+		}
+	}
+	c.Floor(rule, n, 2)
 }
